@@ -139,8 +139,10 @@ def allowed_globals(binary):
     return syms
 
 
-def stress(exe, tsan, rnd, nthreads, nops, verdict, label):
-    """random private programs; returns (n_threads_ok, n_calls)"""
+def stress(exe, tsan, rnd, nthreads, nops, verdict, label, perms=False):
+    """random private programs; returns (n_threads_ok, n_calls).
+    perms: the main thread puts a process-wide restriction in force BEFORE the threads start (a documented global setter,
+    not called by the workers) which every file and directory of the run satisfies: all reads take the checking paths."""
     R = ROOT + "/st"
     hists = []
     for t in range(nthreads):
@@ -199,11 +201,15 @@ def stress(exe, tsan, rnd, nthreads, nops, verdict, label):
             sf = "%s/p%d.script" % (R, t)
             lines.append("file %s %s" % (hx(sf), hx("\n".join(h.script) + "\n")))
             files.append(sf)
+        if perms:
+            lines.append("requireperms 444 555")
         if mode == "parallel":
             lines.append("threads %d x %s" % (nthreads, " ".join(hx(f) for f in files)))
         else:
             for f in files:
                 lines.append("threads 1 x %s" % hx(f))
+        if perms:
+            lines.append("resetsec")
         for f in files:
             lines.append("cat %s" % hx(f + ".out"))
         return lines
@@ -300,15 +306,15 @@ def check(pid, tier, seed):
     ncalls = 0
     nthr = 0
     rounds = [(2, 40), (4, 40), (8, 30), (16, 25)] if tier == "quick" else [(2, 60), (3, 60), (4, 60), (8, 60), (12, 50), (16, 50)] * 4
-    for n, nops in rounds:
-        o, c = stress(exe, tsan, rnd, n, nops, verdict, "stress")
+    for ri, (n, nops) in enumerate(rounds):
+        o, c = stress(exe, tsan, rnd, n, nops, verdict, "stress", perms=(ri % 2 == 1))
         oks += o
         ncalls += c
         nthr += n
     rc = verdict.finish()
     cov = {"states": states, "transitions": states, "traces_validated_against_impl": okf + oks,
            "evaluations": nsched + nthr, "distinct_nontrivial": sum(1 for _ in range(nsched)) + sum(n for n, _ in rounds if n >= 4),
-           "rule": "MC_Threads: all call-level interleavings of 2 threads x 5 calls and 3 threads x 3 calls on private objects (Isolation holds; the negative control with a shared static buffer violates it), and of 2 threads x 4 calls / 3 threads x 2 calls whose read goes through a callback entry point modelled as TWO steps (up to the callback, after it: the other threads' reads happen inside this read; the line number of the entry read is part of the results); %d interleavings exported as schedules and replayed deterministically on real threads with hand-over between calls and inside the callback, per-thread results compared with the model; stress: %s threads with random programs (setters/getters of all types, listings, ext getter, write, merge, reads of private files) run concurrently and alone, results compared call by call, each thread's trace validated by the sequential specification Trace_KeyFile; the same programs under ThreadSanitizer (races are violations unless located in a data symbol referenced by econf_errLocation: %s). non-trivial = interleaving in which threads alternate / stress with >= 4 threads." % (
+           "rule": "MC_Threads: all call-level interleavings of 2 threads x 5 calls and 3 threads x 3 calls on private objects (Isolation holds; the negative control with a shared static buffer violates it), and of 2 threads x 4 calls / 3 threads x 2 calls whose read goes through a callback entry point modelled as TWO steps (up to the callback, after it: the other threads' reads happen inside this read; the line number of the entry read is part of the results); %d interleavings exported as schedules and replayed deterministically on real threads with hand-over between calls and inside the callback, per-thread results compared with the model; stress: %s threads with random programs (setters/getters of all types, listings, ext getter, write, merge, reads of private files) run concurrently and alone, results compared call by call (every second round with econf_requirePermissions in force, set by the main thread before the workers start and satisfied by every file, so that all reads take the checking paths), each thread's trace validated by the sequential specification Trace_KeyFile; the same programs under ThreadSanitizer (races are violations unless located in a data symbol referenced by econf_errLocation: %s). non-trivial = interleaving in which threads alternate / stress with >= 4 threads." % (
                nsched, "/".join(str(n) for n, _ in rounds[:6]), "derived from the binary"),
            "samples": [{"schedule": "0101010101", "threads": 2}], "exhaustive": False, "stress_calls": ncalls,
            "trusted_base": ["TLC 1.8.0", "gcc ASan/UBSan", "clang ThreadSanitizer", "drv.c threads command"]}
